@@ -5,7 +5,7 @@
    instructions_minimal), Ms/DecodeModel.v (parse = decode.rs `decode`; decode_max =
    decode_with_validation_params(.., MAX)), Ms/CodecExt.v (script_size, pk_cost, hfv, gv),
    Ms/CodecSpec.v (ms_wf = the invariants of the Rust types; mtoks = expected tokens). *)
-From Verif Require Import DecodeModel CodecSpec SerProofs LexProofs EncProofs DecodeProofs DecodeEnc DecodeRefute.
+From Verif Require Import DecodeModel CodecSpec SerProofs LexProofs EncProofs DecodeProofs DecodeEnc DecodeNf DecodeRefute.
 Local Open Scope N_scope.
 
 (* [T1] ser_parse: the byte-level parser inverts the serialiser on well-formed structured
@@ -62,20 +62,42 @@ Theorem C04_lex_never_out_of_fuel : forall b, lex b <> LexErr LeFuel.
 Proof. exact lex_never_fuel. Qed.
 Print Assumptions C04_lex_never_out_of_fuel.
 
-(* [T2] decode_enc — FULL statement (not proved in this generality; kept visible):
-     forall e m t, wf / keys decodable / type_of m = ROk t with base B, V or K / the size and depth limits
-       of the context hold for the decoder's normal form of m ->
-     exists m', decode_max e (encode (d_ke e) m) = OOk m' /\ enc (d_ke e) m' = enc (d_ke e) m /\ type_of m' = ROk t.
-   (AST identity is not claimed: c:and_v(v:X,pk_k) and and_v(v:X,c:pk_k) share a script.)
-   PROVED PART: for every miniscript already in DECODER NORMAL FORM (dnf KChain: and_v
-   left-nested and hoisted out of c:/v:/n:/and_b/or_b/or_d/or_c/andor/thresh first operands,
-   pk_h as expr_raw_pkh, sortedmulti as multi of the sorted keys — DecodeEnc.v) the decoder
-   returns EXACTLY that miniscript (AST identity), for all nestings, all contexts.  [dec_ok] =
-   from_ast succeeds at every inner node + the leaf range checks + decodable keys.
-   MISSING: (i) the normalisation nf with enc (nf m) = enc m, (ii) type_of (nf m) = type_of m
-   (finite sweeps over the rule tables), both checked per run instead (oracle: identical bytes and
-   identical type on every generated miniscript).  The depth-402 finding shows the limits hypothesis
-   on the normal form cannot be dropped. *)
+(* [T2] decode_enc: decoding the encoding of a well-formed, well-typed (base B, V or K)
+   miniscript succeeds and returns its DECODER NORMAL FORM nf m (and_v hoisted out of c:/v:/n:/
+   and_b/... first operands and nested to the left, pk_h as expr_raw_pkh, sortedmulti(_a) as
+   multi(_a) of the sorted keys), which has the SAME script (hence byte-identical encoding) and the
+   SAME type.  AST identity is not claimed: c:and_v(v:X,pk_k) and and_v(v:X,c:pk_k) share a script.
+   Hypotheses on the normal form: [lim_ok] = the limits the decoder itself applies while rebuilding
+   (tree height <= 402 and the context's size limits at every inner node; the typing part of from_ast
+   is DERIVED, type_nf), the leaf range checks and keys that decode back to their indices; [gv] at
+   the top node.  The depth-402 finding (known_findings.txt) shows the limits hypothesis cannot be
+   dropped: normalisation can deepen the tree by one.
+   "Identical spending semantics" is a corollary of the identical script: the Script semantics
+   (Script/Exec.v) is a function of enc m. *)
+Theorem C04_decode_enc : forall e m t,
+  ksort_ok (d_ke e) -> ms_wf (d_ctx e) (d_ke e) m ->
+  type_of m = ROk t -> c_base (t_corr t) <> BW ->
+  lim_ok e (nf (d_ke e) m) -> gv (d_ctx e) (d_ke e) (nf (d_ke e) m) = None ->
+  decode_max e (encode (d_ke e) m) = OOk (nf (d_ke e) m) /\
+  enc (d_ke e) (nf (d_ke e) m) = enc (d_ke e) m /\
+  encode (d_ke e) (nf (d_ke e) m) = encode (d_ke e) m /\
+  type_of (nf (d_ke e) m) = ROk t.
+Proof. exact decode_enc. Qed.
+Print Assumptions C04_decode_enc.
+
+(* its three ingredients, each for ALL miniscripts *)
+Theorem C04_nf_same_script : forall ke, ksort_ok ke -> forall m, enc ke (nf ke m) = enc ke m.
+Proof. exact enc_nf. Qed.
+Print Assumptions C04_nf_same_script.
+Theorem C04_nf_same_type : forall ke m t, type_of m = ROk t -> type_of (nf ke m) = ROk t.
+Proof. exact type_nf. Qed.
+Print Assumptions C04_nf_same_type.
+Theorem C04_nf_is_normal : forall ke m t, tne m -> type_of m = ROk t -> c_base (t_corr t) <> BW ->
+  dnf KChain (nf ke m) = true.
+Proof. exact dnf_nf. Qed.
+Print Assumptions C04_nf_is_normal.
+
+(* on miniscripts already in normal form the decoder returns EXACTLY the input AST *)
 Theorem C04_decode_enc_partial : forall e m,
   ksort_ok (d_ke e) -> ms_wf (d_ctx e) (d_ke e) m ->
   dnf KChain m = true -> dec_ok e m ->
@@ -108,3 +130,10 @@ Proof. exact wit_wf. Qed.
 Example C04_decode_enc_hypotheses_satisfiable :
   dnf KChain wit_ms = true /\ dec_ok wit_env wit_ms /\ gv Tap wit_ke wit_ms = None.
 Proof. exact wit_dnf. Qed.
+(* a miniscript that is NOT in normal form, c:and_v(v:pk(A),pk_k(B)), satisfies the hypotheses of
+   decode_enc; its normal form is and_v(v:pk(A),pk(B)) *)
+Example C04_decode_enc_nontrivial :
+  ms_wf Tap wit_ke wit_ms2 /\ (exists t, type_of wit_ms2 = ROk t /\ c_base (t_corr t) <> BW) /\
+  lim_ok wit_env (nf wit_ke wit_ms2) /\ gv Tap wit_ke (nf wit_ke wit_ms2) = None /\
+  nf wit_ke wit_ms2 <> wit_ms2.
+Proof. exact wit2_ok. Qed.
